@@ -378,6 +378,8 @@ func isJSONNumber(b []byte) bool {
 	return ok && len(t) == 1 && t[0].kind == 'n' && len(t[0].lex) == len(b)
 }
 
+var c07Shared = [2]*mjson.Minifier{{KeepNumbers: false}, {KeepNumbers: true}}
+
 func c07Minify(in []byte, keep bool) ([]byte, error, string) {
 	var out bytes.Buffer
 	var err error
@@ -389,6 +391,13 @@ func c07Minify(in []byte, keep bool) ([]byte, error, string) {
 			}
 		}()
 		o := &mjson.Minifier{KeepNumbers: keep}
+		if len(in)%2 == 0 {
+			// one Minifier value serving every call from every worker, the way a registry holds it
+			o = c07Shared[0]
+			if keep {
+				o = c07Shared[1]
+			}
+		}
 		err = o.Minify(minify.New(), &out, bytes.NewReader(in), nil)
 	}()
 	return out.Bytes(), err, pan
